@@ -100,6 +100,9 @@ def main(argv=None) -> int:
         print(out["path"], out["history"], out["minimised"])
         print(json.dumps(out["violation"], indent=1))
         return 1
+    if cmd == "_digests":
+        from sim import selftest
+        return selftest.digests_main(argv[1:])
     if cmd == "selftest":
         from sim import selftest
         return selftest.main(argv[1:])
